@@ -355,8 +355,10 @@ def run(c):
         # 2. behaviours (fault alphabets per property: see RECIPE)
         rc = RECIPE[c.prop]
         f_all = [ex.submit(gen, c, "all_" + m, 3, 3, 2, 2, d_all, m, "all") for m in rc["all"]]
-        f_st = ex.submit(gen, c, "state11", 3, 3, 1, 1, 60, rc["st"][0], rc["st"][1])
-        f_tr = ex.submit(gen, c, "cover33", 3, 3, 3, 3, 60, rc["cov"][0], rc["cov"][1] if c.quick else "trans")
+        # (with the reserved LLID every central PDU has two variants: the quick tier covers 2 central PDUs, thorough 3)
+        mc_cov = 2 if c.quick else 3
+        f_st = ex.submit(gen, c, "state11", mc_cov, 3, 1, 1, 60, rc["st"][0], rc["st"][1])
+        f_tr = ex.submit(gen, c, "cover33", mc_cov, 3, 3, 3, 60, rc["cov"][0], rc["cov"][1] if c.quick else "trans")
         f_sim = [ex.submit(gen, c, "sim_" + m, 60, 60, 2, 3, dsim, m, "sim", simulate=nsim // len(rc["sim"])) for m in rc["sim"]]
         f_trans = {(t, r): ex.submit(gen, c, "trans%d%d" % (capof(t), capof(r)), 3, 3, capof(r), capof(t), 60,
                                      rc["all"][n % len(rc["all"])], "trans")
